@@ -95,6 +95,10 @@ type rtRun struct {
 	pool        *TrackPool
 }
 
+// rtInvalid: the program generator also draws invalid requests (set by C02 around its calls;
+// C01 treats every refused step as a refused valid write).
+var rtInvalid bool
+
 func genRT(r *gen.R, thorough bool) (Cfg, []WStep) {
 	cfg := genCfg(r)
 	max := 70000
@@ -107,7 +111,7 @@ func genRT(r *gen.R, thorough bool) (Cfg, []WStep) {
 	if cfg.WB < 64 && !r.Chance(1, 25) {
 		max = 4000 // tiny buffers: keep the frame count per case affordable
 	}
-	prog := genProgram(r, cfg, ProgOpts{MaxMsgs: 7, MaxSize: max, FailSource: true})
+	prog := genProgram(r, cfg, ProgOpts{MaxMsgs: 7, MaxSize: max, FailSource: true, Invalid: rtInvalid})
 	return cfg, prog
 }
 
@@ -117,7 +121,7 @@ func regenFor(r *gen.R, cfg Cfg, thorough bool) (Cfg, []WStep) {
 	if r.Chance(1, 8) {
 		max = 200 << 10
 	}
-	return cfg, genProgram(r, cfg, ProgOpts{MaxMsgs: 7, MaxSize: max, FailSource: true})
+	return cfg, genProgram(r, cfg, ProgOpts{MaxMsgs: 7, MaxSize: max, FailSource: true, Invalid: rtInvalid})
 }
 
 func execWrite(cfg Cfg, prog []WStep) *rtRun { return execWriteVia(cfg, prog, false) }
@@ -451,14 +455,19 @@ func runC02(ctx *core.Ctx, out *core.Out) {
 		return
 	}
 	r := ctx.R
+	rtInvalid = true // C02 only: invalid requests must leave no trace on the wire
 	cfg, prog := genRT(r, ctx.Thorough())
 	via := ctx.Idx%5 == 4
 	if via && cfg.Server {
 		cfg.WB = 4096
 		cfg, prog = regenFor(r, cfg, ctx.Thorough())
 	}
+	rtInvalid = false
 	tp.Reset()
 	run := execWriteVia(cfg, prog, via)
+	if run != nil && run.w != nil {
+		out.Count("oversize_control_payloads_streamed_into_a_writer", int64(run.w.OversizeStreamed))
+	}
 	drawn := tp.Drawn()
 	desc := rtCase{Cfg: cfg, Prog: progDesc(prog), Upgrade: via}
 	if run == nil {
